@@ -652,7 +652,14 @@ def _extract_encoding(headers, content):
 
 def _decode_body(response, name, raise_if_binary=True):
     encoding = _extract_encoding(response.headers, response.body)
-    text = response.body.decode(encoding, errors='replace')
+    try:
+        text = response.body.decode(encoding, errors='replace')
+    except (LookupError, UnicodeError):
+        # The declared charset names a codec that is not a text encoding
+        # (e.g. "hex", "rot13") or that can't decode with replacement (e.g.
+        # "undefined", "idna"). Treat it like any other unknown charset.
+        encoding = 'utf-8'
+        text = response.body.decode(encoding, errors='replace')
     text_length = len(text)
     if text_length == 0:
         return text
